@@ -340,7 +340,7 @@ def _scaling(record, root):
         if engine in ("xl", "ksa", "exc_xl", "xl_esmd"):
             c["k"] = record["k"]
         if engine in ("exc_basic", "exc_xl", "xl_esmd"):
-            c.update(n_states=3, active_state=1)
+            c.update(n_states=3, active_state=int(record.get("active_state", 1)))
         if engine == "exc_xl":
             # excited-state XL-BOMD re-converges SCF and CIS at every step to its own (loose, 1e-5 / 1e-4) defaults,
             # which would put a 2e-4 eV noise floor under the fluctuations: tighten them for the order measurement
@@ -377,16 +377,19 @@ def _scaling(record, root):
     lo, hi = tol["order_ratio"]
     r1, r2 = fl[0] / fl[1], fl[1] / fl[2]
     d1, d2 = dist[0] / dist[1], dist[1] / dist[2]
-    tag = f"{eng} k={record['k']} {record['batch']} dt={dt0}"
-    stats["max"]["scaling_fluct_dev_from_4"] = max(abs(r1 - 4), abs(r2 - 4))
-    stats["max"]["scaling_dist_dev_from_4"] = max(abs(d1 - 4), abs(d2 - 4))
-    stats["max"]["scaling_drift_over_fluct"] = drift
+    tag = f"{eng} k={record['k']} {record['batch']} dt={dt0}" + (f" active_state={record['active_state']}" if record.get("active_state") else "")
+    # committed known finding: production XL-ESMD on an excited state above the first one
+    cls = {"site": "xlesmd-upper-state"} if (eng == "xl_esmd" and int(record.get("active_state", 1)) >= 2) else {"site": "other"}
+    sfx = "" if cls["site"] == "other" else "_known_finding_xlesmd_upper_state"
+    stats["max"]["scaling_fluct_dev_from_4" + sfx] = max(abs(r1 - 4), abs(r2 - 4))
+    stats["max"]["scaling_dist_dev_from_4" + sfx] = max(abs(d1 - 4), abs(d2 - 4))
+    stats["max"]["scaling_drift_over_fluct" + sfx] = drift
     if not (lo <= r1 <= hi and lo <= r2 <= hi):
-        failures.append(core.fail("shadow-energy-order", f"{tag}: shadow-energy fluctuation at dt, dt/2, dt/4 = {fl} eV (ratios {r1:.2f}, {r2:.2f}); second order means 4"))
+        failures.append(core.fail("shadow-energy-order", f"{tag}: shadow-energy fluctuation at dt, dt/2, dt/4 = {fl} eV (ratios {r1:.2f}, {r2:.2f}); second order means 4", classify=cls))
     if not (lo <= d1 <= hi and lo <= d2 <= hi):
-        failures.append(core.fail("no-convergence-to-bomd", f"{tag}: distance to the Born-Oppenheimer trajectory at dt, dt/2, dt/4 = {dist} A (ratios {d1:.2f}, {d2:.2f}); expected 4"))
+        failures.append(core.fail("no-convergence-to-bomd", f"{tag}: distance to the Born-Oppenheimer trajectory at dt, dt/2, dt/4 = {dist} A (ratios {d1:.2f}, {d2:.2f}); expected 4", classify=cls))
     if drift > tol["drift_over_fluct"]:
-        failures.append(core.fail("shadow-energy-drift", f"{tag}: shadow energy drifts by {drift:.2f} x its fluctuation amplitude over {S0} steps"))
+        failures.append(core.fail("shadow-energy-drift", f"{tag}: shadow energy drifts by {drift:.2f} x its fluctuation amplitude over {S0} steps", classify=cls))
     sig = ["scaling", eng, record["k"], record["batch"]]
     stats["sim_time_fs"] = dt0 * S0 * 4
     return core.Result.make(record, failures, stats, sig=sig, nontrivial=True, sample={"case": record, "fluctuation_eV": fl, "distance_to_bomd_A": dist}, digest_=core.digest([fl, dist]))
@@ -455,6 +458,12 @@ class C09(core.Check):
             for batch in ([["h2o"]] if tier == "quick" else [["h2o"], ["h2co"]]):
                 recs.append({"i": i, "layer": "scaling", "engine": eng, "k": k, "batch": batch, "rotate": rng.randrange(1 << 30), "seed": rng.randrange(1 << 20), "dt": 0.4, "steps": 40, "rank": 2})
                 i += 1
+        # pinned known finding: XL-ESMD on the SECOND excited state (short family)
+        recs.append({"i": i, "layer": "scaling", "engine": "xl_esmd", "k": 5, "batch": ["h2co"], "rotate": 4711, "seed": 99, "dt": 0.4, "steps": 16, "rank": 2, "active_state": 2})
+        i += 1
+        if tier != "quick":
+            recs.append({"i": i, "layer": "scaling", "engine": "exc_xl", "k": 5, "batch": ["h2co"], "rotate": rng.randrange(1 << 30), "seed": rng.randrange(1 << 20), "dt": 0.4, "steps": 24, "rank": 2, "active_state": 2})
+            i += 1
         # excited-state surfaces (formaldehyde, state 1 of 3): XL-ESMD and excited-state XL-BOMD against excited-state BOMD
         for eng, k in ([("xl_esmd", 5)] if tier == "quick" else [("xl_esmd", 5), ("xl_esmd", 8), ("exc_xl", 5), ("exc_xl", 3)]):
             recs.append({"i": i, "layer": "scaling", "engine": eng, "k": k, "batch": ["h2co"], "rotate": rng.randrange(1 << 30), "seed": rng.randrange(1 << 20), "dt": 0.4, "steps": 24, "rank": 2})
